@@ -5,7 +5,8 @@
 (*     format name -> behaviour                                            *)
 (* with behaviours: "truthy" / "falsy" (custom function returning a truthy *)
 (* or falsy value), "listed" (raises an exception listed in `raises`),     *)
-(* "unlisted" (raises any other exception), "b:<g>" (a built-in checker of *)
+(* "unlisted" (raises any other exception), "intonly" (a custom function   *)
+(* that tells 1 from true and from 1.0), "b:<g>" (a built-in checker of *)
 (* grammar g: passes every non-string; strings by FormatGrammar).          *)
 (* Instances: kinds "null" "true" "int" "float" "arr" "obj" and strings    *)
 (* (code points).  Outcome of validating {"format": name}:                 *)
@@ -23,6 +24,7 @@ Outcome(chk, name, x) ==
          [] b = "falsy"    -> "error"
          [] b = "listed"   -> "error-cause"
          [] b = "unlisted" -> "escape"
+         [] b = "intonly"  -> IF x.k = "int" THEN "pass" ELSE "error"   \* custom: true only for integers proper (not true, not 1.0)
          [] b = "b:email"  -> IF ~IsStrInst(x) \/ IsEmail(x.s) THEN "pass" ELSE "error-builtin"
          [] b = "b:ipv4"   -> IF ~IsStrInst(x) \/ IsIPv4(x.s) THEN "pass" ELSE "error-builtin"
          [] b = "b:ipv6"   -> IF ~IsStrInst(x) \/ IsIPv6(x.s) THEN "pass" ELSE "error-builtin"
